@@ -298,6 +298,8 @@ def run(ctx):
     _codec.rule_std_width(ctx, pyfront.PyIndex(ctx.root), "R-C01-STDWIDTH")
     _codec.rule_sat_use(ctx, cd, "R-C01-SAT-USE")
     _codec.rule_float_sat(ctx, cd, "R-C01-FLOAT-SAT")
+    _codec.rule_clamp(ctx, cd, "R-C01-CLAMP")
+    _codec.rule_union_tag(ctx, cd, "ser", "R-C01-TAG")
     _codec.rule_offset_sets(ctx, cd, "ser", "R-C01-OFFSET-SET")
     _codec.rule_padding(ctx, cd, "ser", "R-C01-PADDING")
     _codec.rule_pad_body(ctx, cd, "ser", "R-C01-PAD-BODY")
